@@ -25,7 +25,7 @@ func stdConstRune(p *Program, pkg, name string) (rune, bool) {
 	return rune(v), ok
 }
 
-func runC20(p *Program, r *Report) {
+func runC20Shape(p *Program, r *Report) {
 	r.Trusted = []string{"go/types + go/ssa", "lemma (paper): if the last element contains no path separator then Clean(Join(d, s, f)) is Clean(Join(d, s)) (f ∈ {\"\", \".\"}), its parent (only f = \"..\"), or a direct child",
 		"path/filepath.Join joins with Separator and cleans"}
 	r.NotDecided = []string{"GOOS=windows, where '/' is a second separator (observation O2)"}
